@@ -362,7 +362,7 @@ Definition wf_op (st : pstate) (o : op) : bool :=
       | ArgW w => negb (existsb (rref_beq (RW w)) (reqs_of st t))
       | ArgS s => negb (existsb (fun a => match a with AQSelect s' _ _ _ => sref_beq s' (SUser s) | _ => false end)
                                 (areqs_of st t))
-      | ArgC _ => true
+      | ArgC c => negb (existsb (rref_beq (RC c)) (reqs_of st t))
       end
   | ONewConstraint id opt e =>
       absent (find_cons st id)
